@@ -289,13 +289,13 @@ def registrations(repo: Repo, res: Resolver) -> List[Registration]:
                             f"{module.loc(deco)}: cannot resolve starred registration target"
                         )
                     for node in [binding.node] + binding.alts:
-                        value = node.value
-                        if not isinstance(value, (ast.List, ast.Tuple)):
-                            raise AnalysisError(
-                                f"{module.loc(node)}: registration list is not a literal"
-                            )
-                        for elt in value.elts:
-                            targets.append(res.dotted(module, elt) or "builtin:" + ast.unparse(elt))
+                        for value in _literal_lists(res, module, node.value):
+                            if value is None:
+                                raise AnalysisError(
+                                    f"{module.loc(node)}: registration list is not a literal"
+                                )
+                            for elt in value.elts:
+                                targets.append(res.dotted(module, elt) or "builtin:" + ast.unparse(elt))
                 else:
                     dotted = res.dotted(module, arg)
                     if dotted is None:
@@ -306,3 +306,25 @@ def registrations(repo: Repo, res: Resolver) -> List[Registration]:
                     targets.append(dotted)
             found.append(Registration(module, func, deco, DECORATORS[name], targets, deco.lineno))
     return found
+
+
+def _literal_lists(res: Resolver, module: Module, value: ast.expr):
+    """The list/tuple literals a registration-target expression may denote: the literal itself, or every literal
+    returned by a same-module zero-argument function it calls (version switches written as a function).  Yields
+    None for anything else."""
+    if isinstance(value, (ast.List, ast.Tuple)):
+        yield value
+        return
+    if isinstance(value, ast.Call) and not value.args and not value.keywords:
+        binding = res.resolve_expr(module, value.func)
+        if binding.kind == "def":
+            returns = [n for n in ast.walk(binding.node) if isinstance(n, ast.Return)]
+            if returns and all(isinstance(r.value, (ast.List, ast.Tuple)) for r in returns):
+                for ret in returns:
+                    yield ret.value
+                return
+    if isinstance(value, ast.IfExp):
+        yield from _literal_lists(res, module, value.body)
+        yield from _literal_lists(res, module, value.orelse)
+        return
+    yield None
